@@ -24,9 +24,10 @@ const (
 
 var propRules = map[string]*PropSpec{
 	"C01": {
-		Rules:       []string{"A1.kernel", "A6.kernel", "F1", "F8.bitmap", "F8.run", "F10", "F3.32", "A1.api32", "A2.32", "A3.32", "F11", "F8.scratch"},
+		Rules:       []string{"A1.kernel", "A6.kernel", "F1", "F8.bitmap", "F8.run", "F10", "F3.32", "A1.api32", "A2.32", "A3.32", "F11", "F8.scratch", "G1"},
 		Explanation: explBase + " C01: kernels never write operands, results are fresh, every kind pairing is dispatched, results are re-typed at the 4096 threshold and run results re-minimised, empty results are elided, x.Op(x) is guarded.",
 		Decided: []string{
+			"kernels and predicates use no package-level scratch memory (concurrent queries on unrelated bitmaps cannot interfere)",
 			"operands of every container kernel are never written (3 kinds x all methods) and non-in-place kernels leave the receiver unchanged",
 			"non-in-place kernels return fresh containers; in-place kernels return receiver or fresh, never the operand",
 			"every type switch over a container handles all three kinds",
@@ -54,11 +55,14 @@ var propRules = map[string]*PropSpec{
 		Technique:  techOwn,
 	},
 	"C03": {
-		Rules:       []string{"A1.api32", "A1.kernel", "F1", "F11"},
+		Rules:       []string{"A1.api32", "A1.kernel", "F1", "F11", "G1", "F3.32", "F3.64", "A1.api64"},
 		Explanation: explBase + " C03: the clause 'queries never modify the bitmap' is decided for every exported read-only function; kind dispatch of the query paths is exhaustive.",
-		Decided:     []string{"no exported query (cardinality, rank/select, extrema, Contains, Equals, ToArray, Checksum, Stats, iterators' constructors ...) changes the contents of its receiver or argument", "read-only container kernels never write receiver or operand", "type switches on the query paths handle all kinds", "no scalar query (Equals, Contains, Rank, cardinalities ...) reads the copy-on-write flags"},
-		NotDecided:  []string{"every numeric result (rank, select, cardinalities, extrema)", "Checksum invariance under Clone / round trip", "AVX2 vs portable popcount"},
-		Technique:   techOwn,
+		Decided: []string{
+			"queries use no package-level scratch memory",
+			"no mutator leaves an empty chunk/bucket behind (IsEmpty, Minimum, Maximum rely on it)",
+			"no exported query (cardinality, rank/select, extrema, Contains, Equals, ToArray, Checksum, Stats, iterators' constructors ...) changes the contents of its receiver or argument", "read-only container kernels never write receiver or operand", "type switches on the query paths handle all kinds", "no scalar query (Equals, Contains, Rank, cardinalities ...) reads the copy-on-write flags"},
+		NotDecided: []string{"every numeric result (rank, select, cardinalities, extrema)", "Checksum invariance under Clone / round trip", "AVX2 vs portable popcount"},
+		Technique:  techOwn,
 	},
 	"C04": {
 		Rules:       []string{"F7", "F1", "A1.api32"},
@@ -68,7 +72,7 @@ var propRules = map[string]*PropSpec{
 		Technique:   "static analysis: CFG reachability after the stop edge (go/ssa), AST type-switch exhaustiveness, ownership summaries",
 	},
 	"C05": {
-		Rules:       []string{"B1", "B2", "B5", "L2", "L5", "A4", "F8.bitmap", "A8", "G1", "F8.scratch"},
+		Rules:       []string{"B1", "B2", "B5", "L2", "L5", "A4", "F8.bitmap", "A8", "G1", "F8.scratch", "F2.repair"},
 		Explanation: explBase + " C05: error propagation on every encode/decode path, byte accounting of writers and readers, bounded reads, agreement of size prediction / writer / reader on the offset-header predicate and payload sizes, and flagging of zero-copy payloads.",
 		Decided: []string{
 			"the copying decoders (ReadFrom, UnmarshalBinary, FromBase64) keep no pointer into the caller's slice; only the documented zero-copy constructors do",
@@ -85,11 +89,13 @@ var propRules = map[string]*PropSpec{
 		Technique:  techErr + "; affine size expressions over go/ssa",
 	},
 	"C06": {
-		Rules:       []string{"L1", "L2", "L5", "L6"},
+		Rules:       []string{"L1", "L2", "L5", "L6", "B5", "B1"},
 		Explanation: explBase + " C06: format constants, header predicate, payload sizes and byte order are compared with the published RoaringFormatSpec values transcribed in the model.",
-		Decided:     []string{"cookies 12347/12346, noOffsetThreshold 4, array/bitmap threshold 4096, bitmap payload 8192 bytes, run element 4 bytes", "offset header present iff no-run cookie or N >= 4, in size prediction, writer and reader", "offset-header increments equal payload sizes per kind", "all multi-byte fields little-endian"},
-		NotDecided:  []string{"that an independent decoder recovers exactly the set", "ascending keys (follows from C09)", "cardinality-minus-one field arithmetic beyond the affine check"},
-		Technique:   "static analysis: constant folding (go/constant), truth tables over normalised branch conditions, affine expression comparison",
+		Decided: []string{
+			"the stream adapter fills every read completely (io.ReadAtLeast) and bounds-checks every slice it hands out, so short reads of a conformant stream are not misparsed",
+			"cookies 12347/12346, noOffsetThreshold 4, array/bitmap threshold 4096, bitmap payload 8192 bytes, run element 4 bytes", "offset header present iff no-run cookie or N >= 4, in size prediction, writer and reader", "offset-header increments equal payload sizes per kind", "all multi-byte fields little-endian"},
+		NotDecided: []string{"that an independent decoder recovers exactly the set", "ascending keys (follows from C09)", "cardinality-minus-one field arithmetic beyond the affine check"},
+		Technique:  "static analysis: constant folding (go/constant), truth tables over normalised branch conditions, affine expression comparison",
 	},
 	"C07": {
 		Rules:       []string{"A1.kernel", "A6.kernel", "A2.32", "A3.32", "A2.64", "A3.64", "A1.api32", "A1.api64", "A1.slices", "F9", "F5", "A7"},
@@ -116,11 +122,14 @@ var propRules = map[string]*PropSpec{
 		Technique:  "static analysis: taint propagation of caller-owned slices over go/ssa + ownership typestate",
 	},
 	"C09": {
-		Rules:       []string{"F3.32", "F8.bitmap", "F8.run", "F2", "V1", "V2", "A6.kernel", "A2.32", "A3.32", "F8.scratch"},
+		Rules:       []string{"F3.32", "F8.bitmap", "F8.run", "F2", "V1", "V2", "A6.kernel", "A2.32", "A3.32", "F8.scratch", "A2.64", "A3.64", "F3.64", "L2", "L5", "F2.repair"},
 		Explanation: explBase + " C09: the producer side of each Validate conjunct that has a structural form (no empty chunk stored, array/bitmap threshold, runs minimised, lazy cardinality repaired) and the validator's own conjunct table.",
-		Decided:     []string{"no may-empty result is stored without an emptiness test", "bitmap containers are returned only behind cardinality > 4096; run containers reach slots minimised", "lazy kernels that write a bitmap invalidate or recompute the cached cardinality and every lazy aggregate is repaired before it is returned", "Validate calls every per-kind validator on every container and each listed conjunct is present", "containers are never shared unflagged between bitmaps (a later mutation of one would silently invalidate the other)"},
-		NotDecided:  []string{"key order and strict sortedness of payloads after arbitrary kernels (value level)"},
-		Technique:   techMix,
+		Decided: []string{
+			"roaring64 buckets obey the same ownership and no-empty-bucket rules",
+			"writer, reader and size predictor agree on header and payload sizes (a written bitmap can be read back)",
+			"no may-empty result is stored without an emptiness test", "bitmap containers are returned only behind cardinality > 4096; run containers reach slots minimised", "lazy kernels that write a bitmap invalidate or recompute the cached cardinality and every lazy aggregate is repaired before it is returned", "Validate calls every per-kind validator on every container and each listed conjunct is present", "containers are never shared unflagged between bitmaps (a later mutation of one would silently invalidate the other)"},
+		NotDecided: []string{"key order and strict sortedness of payloads after arbitrary kernels (value level)"},
+		Technique:  techMix,
 	},
 	"C10": {
 		Rules:       []string{"B1", "B4", "B5", "T1", "V1", "V2", "U1", "G1"},
@@ -132,11 +141,13 @@ var propRules = map[string]*PropSpec{
 		Technique:  techErr + "; taint of decoded sizes",
 	},
 	"C11": {
-		Rules:       []string{"F9", "F2", "A1.api32", "A1.slices", "A2.32", "A3.32", "A6.kernel", "U1", "F8.scratch"},
+		Rules:       []string{"F9", "F2", "A1.api32", "A1.slices", "A2.32", "A3.32", "A6.kernel", "U1", "F8.scratch", "A2.64", "A3.64", "F2.repair"},
 		Explanation: explBase + " C11: singleton behaviour of the aggregate siblings, lazy->repair discipline, inputs and the caller's slice unchanged, scratch containers never end up in the result.",
-		Decided:     []string{"every aggregate of one bitmap returns a fresh bitmap", "every lazy union result is repaired before it is returned / sent; lazy kernels mark the cardinality invalid", "aggregates never change their inputs' contents nor the caller's slice", "kernel results never alias the argument, so AndAny's reused scratch containers cannot be stored in x", "no 16-bit arithmetic in the key-range partition of ParOr"},
-		NotDecided:  []string{"key-range partition arithmetic of ParOr", "heap grouping", "that the fold is the right fold", "worker-count independence of the result"},
-		Technique:   techMix,
+		Decided: []string{
+			"roaring64 aggregates store only owned or properly shared buckets",
+			"every aggregate of one bitmap returns a fresh bitmap", "every lazy union result is repaired before it is returned / sent; lazy kernels mark the cardinality invalid", "aggregates never change their inputs' contents nor the caller's slice", "kernel results never alias the argument, so AndAny's reused scratch containers cannot be stored in x", "no 16-bit arithmetic in the key-range partition of ParOr"},
+		NotDecided: []string{"key-range partition arithmetic of ParOr", "heap grouping", "that the fold is the right fold", "worker-count independence of the result"},
+		Technique:  techMix,
 	},
 	"C12": {
 		Rules:       []string{"P1", "P3", "P4", "PT", "A1.api32", "A2.32", "A3.32", "G1"},
@@ -155,18 +166,22 @@ var propRules = map[string]*PropSpec{
 		Technique:   "static analysis: sibling table extraction from type switches (AST + go/constant), dominance",
 	},
 	"C14": {
-		Rules:       []string{"F8.run", "F8.bitmap", "F3.32", "L7", "F8.scratch"},
+		Rules:       []string{"F8.run", "F8.bitmap", "F3.32", "L7", "F8.scratch", "A2.32", "A3.32", "F2.repair"},
 		Explanation: explBase + " C14: the representation-minimisation clause the bound relies on, and the documented constants of BoundSerializedSizeInBytes.",
-		Decided:     []string{"no chunk is left as an un-minimised run container after a mutation or a set operation; shrinking bitmap results are converted at 4096", "no empty chunk is left in the table (it would cost header bytes for zero values)", "BoundSerializedSizeInBytes is the documented affine form (8 bytes header + per-chunk overhead + 2 bytes/value)"},
-		NotDecided:  []string{"the inequality itself for every history"},
-		Technique:   techMix,
+		Decided: []string{
+			"containers are never shared unflagged (a write through a stale flag would corrupt another bitmap's chunk and its size)",
+			"no chunk is left as an un-minimised run container after a mutation or a set operation; shrinking bitmap results are converted at 4096", "no empty chunk is left in the table (it would cost header bytes for zero values)", "BoundSerializedSizeInBytes is the documented affine form (8 bytes header + per-chunk overhead + 2 bytes/value)"},
+		NotDecided: []string{"the inequality itself for every history"},
+		Technique:  techMix,
 	},
 	"C15": {
-		Rules:       []string{"U1", "A1.api32"},
+		Rules:       []string{"U1", "A1.api32", "F3.32"},
 		Explanation: explBase + " C15: kernels can express the out-of-chunk sentinels (no 16-bit wrap in the neighbour kernels and drivers) and the queries are pure. Everything else about these functions is value-level.",
-		Decided:     []string{"no 16-bit add/sub in the neighbour queries (3 kinds x 4 kernels + drivers) outside the triaged, reasoned allow-list", "neighbour queries never change the bitmap"},
-		NotDecided:  []string{"the cross-chunk walk of NextAbsentValue/PreviousAbsentValue (known to be wrong on the pinned tree, see DESIGN §6)", "combineLoHi32 use", "binary searches", "agreement of sentinels between kinds (bitmapContainer.nextAbsentValue returns -1)"},
-		Technique:   "static analysis: integer-width rule over go/ssa with a triaged allow-list; ownership summaries",
+		Decided: []string{
+			"no mutator leaves an empty chunk behind (the drivers ask each chunk for its minimum/maximum and ignore the error)",
+			"no 16-bit add/sub in the neighbour queries (3 kinds x 4 kernels + drivers) outside the triaged, reasoned allow-list", "neighbour queries never change the bitmap"},
+		NotDecided: []string{"the cross-chunk walk of NextAbsentValue/PreviousAbsentValue (known to be wrong on the pinned tree, see DESIGN §6)", "combineLoHi32 use", "binary searches", "agreement of sentinels between kinds (bitmapContainer.nextAbsentValue returns -1)"},
+		Technique:  "static analysis: integer-width rule over go/ssa with a triaged allow-list; ownership summaries",
 	},
 	"C16": {
 		Rules:       []string{"A1.api32", "A3.32", "A6.kernel", "F5", "F6", "A4", "F3.32", "F8.bitmap", "F8.run", "F8.scratch"},
